@@ -33,7 +33,8 @@ LEVEL = "model_checking"
 FUNCTIONS = ["aldy.genotype.genotype (lines 173-220)", "aldy.sam.Sample.__init__ (tail)",
              "aldy.sam.Sample._make_coverage",
              "aldy.coverage.Coverage.{_normalize_coverage,diploid_avg_coverage,"
-             "average_coverage}", "aldy.cn.solve_cn_model"]
+             "average_coverage}", "aldy.cn.solve_cn_model", "aldy.sam._in_region",
+             "aldy.sam.Sample._load_sam (eligibility of a read)"]
 STUBS = ["genotype(): detect_genome, Sample, Profile.load and the three stages are stubs; "
          "Sample(): detect_genome -> 'dump', _load_dump -> empty evidence with symbolic "
          "neutral depth", "lpinterface.model -> z3-capturing backend (deletion part)"]
@@ -47,7 +48,8 @@ def BOUNDS(tier):
             "{profile, BAM-as-profile (same code path), user-supplied structure}; output "
             "{none, simple}", "neutral: 3-position neutral region, symbolic depths in "
             "[0,50], neutral_value symbolic in (0,100]",
-            "deletion: toy, GA, GC" + (", cyp2d6" if tier == "thorough" else "")
+            "locus test: symbolic read and region intervals (aldy.sam._in_region), "
+            "eligibility flags of _load_sam", "deletion: toy, GA, GC" + (", cyp2d6" if tier == "thorough" else "")
             + "; gene depth 0, pseudogene depth in [1.75, 2.25] per region (symbolic)"]
 
 
@@ -57,12 +59,19 @@ def configs(tier):
         for simple in (False, True):
             c.append({"kind": "guard", "route": route, "simple": simple})
     c.append({"kind": "neutral"})
+    # "no reads in the locus" presupposes that reads elsewhere do not count: the locus
+    # test on symbolic read / region intervals and the eligibility flags (shared with C06)
+    c.append({"kind": "region"})
+    c.append({"kind": "eligible"})
     for g in ["toy", "GA", "GC"] + (["cyp2d6"] if tier == "thorough" else []):
         c.append({"kind": "deletion", "gene": g, "genome": "hg19"})
     return c
 
 
 def run_config(cfg):
+    if cfg["kind"] in ("region", "eligible"):
+        import c06
+        return getattr(c06, "run_" + cfg["kind"])(cfg)
     return globals()["run_" + cfg["kind"]](cfg)
 
 
@@ -428,4 +437,7 @@ def replay_deletion(o):
 
 
 def replay(o):
+    if o["kind"] in ("region", "none"):
+        import c06
+        return c06.replay(o)
     return globals()["replay_" + o["kind"]](o)
